@@ -141,6 +141,34 @@ def h_ou(B, n, vary_sigma, vary_gamma):
         B.eq("OU: covariance == sigma^2 exp(-gamma|t_i-t_j|) (1 - exp(-2 gamma min(t_i,t_j)))", cov_of(cols, n + 1), cf)
 
 
+def h_ou_model(B, n, vary_sigma):
+    """the model class OrnsteinUhlenbeckProcess without x0: the initial state is drawn from the steady state of the FIRST
+    interval (variance sigma_0^2), so the covariance is the stationary continuation of h_ou's recursion"""
+    P = params(B, n, vary_sigma, True, False)
+
+    def f(z):          # z = (xi_0 for the initial state, xi_1..n for the steps)
+        def run(z, s, g, dt):
+            m = gm().OrnsteinUhlenbeckProcess(s, g, dt, name="oup", x0=None)
+            return m({"oup": z[1:], "oup_x0": z[0]})
+        return jcall(B, run, z, P["sigma"], P["gamma"], P["dt"])
+    xbar, cols = affine_map(B, f, (n + 1,), "OU model")
+    B.eq("OU model without x0: zero mean", xbar, [0] * (n + 1))
+    e = [_exp(-(P["gam_list"][k] * P["dt"][k])) for k in range(n)]
+    var = [P["sig_list"][0] * P["sig_list"][0]]
+    for k in range(n):
+        s2 = P["sig_list"][k] * P["sig_list"][k]
+        var.append(e[k] * e[k] * var[-1] + s2 * (1 - e[k] * e[k]))
+    want = np.zeros((n + 1, n + 1), dtype=object)
+    for i in range(n + 1):
+        for j in range(n + 1):
+            a, b = min(i, j), max(i, j)
+            prop = 1
+            for k in range(a, b):
+                prop = prop * e[k]
+            want[i, j] = prop * var[a]
+    B.eq("OU model without x0: covariance of the process started in the steady state of the first interval", cov_of(cols, n + 1), want)
+
+
 def h_iwp(B, n, asperity, vary_sigma):
     P = params(B, n, vary_sigma)
     x0 = B.reals("x0", (2,))
@@ -266,6 +294,8 @@ def scenarios(tier, seed):
         for vs in (False, True):
             out.append(("wiener", {"n": n, "vary_sigma": vs}))
             out.append(("ou", {"n": n, "vary_sigma": vs, "vary_gamma": False}))
+            if n == 2:
+                out.append(("ou_model", {"n": n, "vary_sigma": vs}))
             if n <= 3:
                 out.append(("ou", {"n": n, "vary_sigma": vs, "vary_gamma": True}))
             if n <= (2 if tier == "quick" else 3):
@@ -281,7 +311,7 @@ def scenarios(tier, seed):
     return out
 
 
-HARNESSES = {"recursion": h_recursion, "wiener": h_wiener, "ou": h_ou, "iwp": h_iwp, "generic": h_generic, "model": h_model, "validate": h_validate}
+HARNESSES = {"ou_model": h_ou_model, "recursion": h_recursion, "wiener": h_wiener, "ou": h_ou, "iwp": h_iwp, "generic": h_generic, "model": h_model, "validate": h_validate}
 OPTS = {"quick": {"max_paths": 8, "budget_s": 300}, "thorough": {"max_paths": 8, "budget_s": 1200}}
 
 META = {
